@@ -11,9 +11,10 @@ BUDGET = {'quick': 160, 'thorough': 5000}
 EXHAUSTIVE = {'quick': True, 'thorough': True}
 RULE = (
     'Histories of configuration operations on a PKPD model: admin(compartment, direct|indirect), regimen (two '
-    'canonical regimens), set_outputs (two selections), rename parameter / output, enable/disable sensitivities, '
+    'canonical regimens in the float form; RP = the myokit.Protocol form with ONE protocol object per model that gets a '
+    'further event scheduled and is passed again), set_outputs (two selections), rename parameter / output, enable/disable sensitivities, '
     'copy-and-continue-on-copy, copy-and-keep, wrap in ReducedMechanisticModel + fix / re-fix / release, simulate. '
-    'Tier 1 is EXHAUSTIVE: every sequence of length <= 3 (quick) / <= 4 (thorough) over the 14-letter alphabet on two '
+    'Tier 1 is EXHAUSTIVE: every sequence of length <= 3 (quick) / <= 4 (thorough) over the 15-letter alphabet on two '
     'fixed generated models (1 and 2 compartments) and the library one-compartment model, observed at the end of the '
     'sequence (all prefixes are sequences themselves). Tier 2: Hypothesis draws sequences of up to 25 operations on '
     'freshly generated models / library models (pk, erlotinib) and observes after every step. Non-trivial: an '
@@ -27,10 +28,11 @@ ASSUMPTIONS = [
     'the one its simulations apply (closed form for generated models)',
     'a regimen call before any route was chosen is rejected by chi (documented ValueError) and leaves the state unchanged',
     'operations that ReducedMechanisticModel does not offer (set_administration) are skipped after wrapping']
-REQUIRED = ['admin_after_config', 'copy_then_mutate', 'wrapped', 'regimen_then_admin', 'rename_then_admin', 'exhaustive']
+REQUIRED = ['admin_after_config', 'copy_then_mutate', 'wrapped', 'regimen_then_admin', 'rename_then_admin', 'exhaustive',
+            'protocol_object_reused']
 
 TIMES = np.array([0.0, 0.4, 0.7, 1.3, 2.6, 3.9])
-ALPHABET = ['A0', 'A1', 'A2', 'R0', 'R1', 'O0', 'O1', 'NP', 'NO', 'S1', 'S0', 'C', 'K', 'F']
+ALPHABET = ['A0', 'A1', 'A2', 'R0', 'R1', 'RP', 'O0', 'O1', 'NP', 'NO', 'S1', 'S0', 'C', 'K', 'F']
 REGIMENS = {'R0': dict(dose=2.0, start=0.5, duration=0.2, period=1.0, num=3),
             'R1': dict(dose=1.0, start=0.0, duration=0.01, period=None, num=None)}
 
@@ -87,12 +89,14 @@ def classify(spec):
     for i, o in enumerate(ops):
         if o in ('C', 'K') and any(p not in ('C', 'K') for p in ops[i + 1:]):
             labs.append('copy_then_mutate')
-        if o in ('R0', 'R1') and any(p.startswith('A') for p in ops[i + 1:]) and any(p.startswith('A') for p in ops[:i]):
+        if o in ('R0', 'R1', 'RP') and any(p.startswith('A') for p in ops[i + 1:]) and any(p.startswith('A') for p in ops[:i]):
             labs.append('regimen_then_admin')
         if o in ('NP', 'NO') and any(p.startswith('A') for p in ops[i + 1:]):
             labs.append('rename_then_admin')
     if 'F' in ops:
         labs.append('wrapped')
+    if ops.count('RP') >= 2:
+        labs.append('protocol_object_reused')
     labs.append('model:' + spec['model'])
     return sorted(set(labs))
 
@@ -287,6 +291,7 @@ def check(case):
         return
     net = Net(desc)
     others = []      # (label, object, net at that time, recorded observation)
+    proto = [None, 0]   # the user's own myokit.Protocol object for the current model, number of events scheduled
 
     def verify(step):
         with case.clause('net_configuration'):
@@ -337,6 +342,19 @@ def check(case):
                                            period=r['period'], num=r['num'])
                 except ValueError:
                     case.true(net.admin is None, 'set_dosing_regimen was rejected although a route is set')
+            elif op == 'RP':
+                # Protocol form: the user keeps ONE protocol object, schedules a further event and passes it again
+                import myokit
+                if proto[0] is None:
+                    proto[0], proto[1] = myokit.Protocol(), 0
+                k = proto[1]
+                proto[0].schedule(level=[1.5, 0.7, 2.2][k % 3], start=0.3 + 0.9 * k, duration=0.15, period=0, multiplier=0)
+                proto[1] += 1
+                try:
+                    cur.set_dosing_regimen(proto[0])
+                except ValueError:
+                    case.true(net.admin is None, 'set_dosing_regimen(Protocol) was rejected although a route is set')
+                    proto[0] = None
             elif op in ('O0', 'O1'):
                 sel = [desc.states[0]] if op == 'O0' else (list(reversed(desc.states)) + desc.inter[:1])
                 cur.set_outputs(list(sel))
@@ -369,6 +387,7 @@ def check(case):
                 if op == 'C':
                     others.append(('original', cur, net, observe(desc, net, cur)))
                     cur, net = cp, cnet
+                    proto[0] = None                    # the protocol object stays with the original
                 else:
                     others.append(('copy', cp, cnet, observe(desc, cnet, cp)))
             elif op == 'F':
